@@ -662,6 +662,21 @@ pub fn gen_fmt(rng: &mut Rng, n: usize, which: &str, out: &mut Vec<String>) {
                         out.push(format!("PROPFMTWS {} {}", hex_str(&t2), opts));
                         out.push(format!("PROPFMTCANON {} {} {}", hex_str(&t2), hex_str(&format!("{}\n", t2)), opts));
                     }
+                    // the same tokens with every comment directly behind the token in front of it (`else// c`, `{// c`)
+                    if let Some(g) = glue_comments(&text) {
+                        out.push(format!("PROPFMTCANON {} {} {}", h, hex_str(&g), opts));
+                        out.push(format!("PROPFMTIDEM {} {}", hex_str(&g), opts));
+                    }
+                    // ... also with comments in front of the body of a branch or loop (`else// c`, `)// c`)
+                    if i % 4 == 1 {
+                        const BODY_GAPS: &[&str] = &["decl-start", "stmt-start", "vardec-start", "param-start", "after-cond"];
+                        let lo3 = Layout { comment_pct: 30, comment_gaps: Some(BODY_GAPS), compact: rng.chance(1, 3) };
+                        let (t3, _, _) = gen_prog::layout(rng, &toks, &lo3);
+                        if let Some(g) = glue_comments(&t3) {
+                            out.push(format!("PROPFMTCANON {} {} {}", hex_str(&t3), hex_str(&g), opts));
+                            out.push(format!("PROPFMTIDEM {} {}", hex_str(&g), opts));
+                        }
+                    }
                     if i % 2 == 0 {
                         out.push(format!("PROPFMTWS {} {}", h, opts));
                     } else if let Some(c) = formatted(&text, sp, ts as u32) {
@@ -671,6 +686,31 @@ pub fn gen_fmt(rng: &mut Rng, n: usize, which: &str, out: &mut Vec<String>) {
             }
         }
     }
+}
+
+/// Remove the white space in front of every `//` comment of a generated program (comments stand on lines of their
+/// own or behind a token; no generated literal contains `//`), unless the character in front is a `/`.
+fn glue_comments(text: &str) -> Option<String> {
+    let mut out = String::with_capacity(text.len());
+    let mut changed = false;
+    let mut rest = text;
+    while let Some(k) = rest.find("//") {
+        let (head, tail) = rest.split_at(k);
+        let trimmed = head.trim_end_matches(|c: char| c == ' ' || c == '\t' || c == '\n' || c == '\r');
+        let keep_ws = trimmed.is_empty() && out.is_empty() || trimmed.ends_with('/') || (trimmed.is_empty() && out.ends_with('/'));
+        if keep_ws || trimmed.len() == head.len() {
+            out.push_str(head);
+        } else {
+            out.push_str(trimmed);
+            changed = true;
+        }
+        // the comment itself, up to and including its line feed
+        let end = tail.find('\n').map_or(tail.len(), |e| e + 1);
+        out.push_str(&tail[..end]);
+        rest = &tail[end..];
+    }
+    out.push_str(rest);
+    if changed { Some(out) } else { None }
 }
 
 pub fn run_fmt_props(op: &str, args: &[&str]) -> Option<String> {
